@@ -1,21 +1,28 @@
 #!/bin/sh
-# applies every seeded change to /repo in turn, runs the quick check of its property (plus extra properties given in seeded/<id>/also), undoes it; writes seeded/RESULTS.txt
+# applies every seeded change in turn, runs the quick check of its property (plus extra properties given in seeded/<id>/also), undoes it;
+# appends to seeded/RESULTS.txt.   usage: seed_matrix.sh [glob of ids, default 'C*']
+# The change is applied to a scratch worktree of /repo outside /repo and /verif (checks read it through GEOMETER_REPO), so /repo itself stays untouched;
+# the worktree is removed at the end.
 cd /verif
-: > seeded/RESULTS.txt
-for d in seeded/C*/; do
+PAT="${1:-C*}"
+WT=/tmp/seed_matrix_wt_$$
+git -C /repo worktree add -q --detach "$WT" HEAD || exit 9
+export GEOMETER_REPO="$WT"
+[ "$PAT" = "C*" ] && : > seeded/RESULTS.txt
+for d in seeded/$PAT/; do
   id=$(basename $d); pid=$(echo $id | cut -c1-3)
   props="$pid"
   [ -f $d/also ] && props="$props $(cat $d/also)"
-  if ! git -C /repo apply --check /verif/$d/patch.diff 2>/dev/null; then echo "$id: PATCH-DOES-NOT-APPLY" >> seeded/RESULTS.txt; continue; fi
-  git -C /repo apply /verif/$d/patch.diff
+  if ! git -C "$WT" apply --check /verif/$d/patch.diff 2>/dev/null; then echo "$id: PATCH-DOES-NOT-APPLY" >> seeded/RESULTS.txt; continue; fi
+  git -C "$WT" apply /verif/$d/patch.diff
   for p in $props; do
-    out=$(./check $p --no-evidence --case-timeout 240 2>&1)
+    out=$(./check $p --no-evidence --case-timeout 240 --jobs ${SEED_JOBS:-16} 2>&1)
     code=$?
     nv=$(echo "$out" | grep -c "^VIOLATION")
     first=$(echo "$out" | grep "^VIOLATION" | head -1 | sed 's/.*replays\///')
     echo "$id: check=$p exit=$code violations=$nv first=$first" >> seeded/RESULTS.txt
   done
-  git -C /repo checkout -- .
+  git -C "$WT" checkout -- .
 done
-git -C /repo status --short >> seeded/RESULTS.txt
-echo DONE >> seeded/RESULTS.txt
+git -C /repo worktree remove --force "$WT"
+echo "DONE $PAT" >> seeded/RESULTS.txt
